@@ -77,7 +77,7 @@ impl World for RingBufWorld {
             v.push(Cfg { flavour: 0, mode: 3, x, y: BUF_ARRAY, k: 0, sw: 0 });
         }
         // the largest array type the crate provides (`[T; 65536]`): pre-filled up to 48 below
-        // full after x * 257 rotating push+pop pairs, then bursts of pushes / pops
+        // full after x rotations by 255 slots (255 pushes, 255 pops), then bursts of pushes / pops
         for x in [0u8, 1, 255] {
             v.push(Cfg { flavour: 0, mode: 4, x, y: BUF_ARRAY, k: 0, sw: 0 });
         }
@@ -99,7 +99,7 @@ impl World for RingBufWorld {
     }
     fn run(&self, cfg: &Cfg, ops: &[Op], run: &mut Run) {
         if cfg.mode == 4 {
-            return run_big(cfg.x as usize * 257, ops, run);
+            return run_big(cfg.x as usize, ops, run);
         }
         if cfg.mode == 3 {
             let mut ex: Vec<Op> = Vec::new();
@@ -167,7 +167,7 @@ impl World for RingBufWorld {
                 1 => "new()",
                 2 => "with_capacity(), zero-sized elements",
                 3 => "over a user provided RealArray newtype of 96 slots, bursts, indices rotated by x first, x",
-                4 => "over [T; 65536] (largest provided array), pre-filled to 48 below full after 257*x rotations, bursts, x",
+                4 => "over [T; 65536] (largest provided array), pre-filled to 48 below full after x rotations by 255 slots, bursts, x",
                 _ => "with_capacity()",
             },
             cfg.x
@@ -430,7 +430,7 @@ fn run_big(rot: usize, ops: &[Op], run: &mut Run) {
     }
     if !run.failed() {
         burst(&mut buf, true, BIG - 48, &mut next_push, &mut next_pop, run);
-        run.note(|| format!("{} rotations of 255 push+pop, then {} pushes", rot, BIG - 48));
+        run.note(|| format!("{} rotations by 255 slots, then {} pushes", rot, BIG - 48));
     }
     for (i, op) in ops.iter().enumerate() {
         if run.failed() {
